@@ -49,7 +49,7 @@ pub fn res_str(r: Result<String, ()>) -> String {
 
 fn run_case(ctx: &mut Ctx, dom: &str, a: &[Arg]) {
     match dom {
-        "c14" | "align" | "conv" | "conveq" | "elfty" | "fb" | "magic" | "pstr" => dom_common::run(ctx, dom, a),
+        "c14" | "align" | "conv" | "conveq" | "conveqc" | "elfty" | "fb" | "magic" | "pstr" => dom_common::run(ctx, dom, a),
         "mbi" | "mbiwalk" | "mbinull" | "iters" | "elfname" => dom_mbi::run(ctx, dom, a),
         "hdr" | "hdrwalk" | "hdrnull" | "find" | "cksum" | "verify" => dom_hdr::run(ctx, dom, a),
         "cast" => dom_cast::run(ctx, a),
